@@ -80,16 +80,21 @@ func intersectList(a []any, b any) (any, error) {
 
 func intersectListList(a, b []any) ([]any, error) { //nolint:unparam
 	ret := []any{}
+	used := make([]bool, len(b))
 
+	// Multiset intersection: each entry of b accounts for one entry of a.
 	for _, v1 := range a {
-		for _, v2 := range b {
-			if reflect.DeepEqual(v1, v2) {
+		for i, v2 := range b {
+			if !used[i] && reflect.DeepEqual(v1, v2) {
+				used[i] = true
 				ret = append(ret, v1)
+
+				break
 			}
 		}
 	}
 
-	if len(ret) == 0 {
+	if len(ret) == 0 && len(a)+len(b) > 0 {
 		ret = append(ret, "$required")
 	}
 
